@@ -183,8 +183,8 @@ fn fact_oracle(c: &Fact) -> Verdict {
 
 pub fn subs() -> Vec<Box<dyn DynSub>> {
     vec![
-        sub(Sub { name: "c07.forward", source: Source::Gen(fwd_strategy, 600_000, 30_000_000), oracle: fwd_oracle, known: no_known, hang_is_violation: false }),
-        sub(Sub { name: "c07.reverse", source: Source::Gen(rev_strategy, 400_000, 20_000_000), oracle: rev_oracle, known: no_known, hang_is_violation: false }),
+        sub(Sub { name: "c07.forward", source: Source::Gen(fwd_strategy, 3_000_000, 30_000_000), oracle: fwd_oracle, known: no_known, hang_is_violation: false }),
+        sub(Sub { name: "c07.reverse", source: Source::Gen(rev_strategy, 2_000_000, 20_000_000), oracle: rev_oracle, known: no_known, hang_is_violation: false }),
         sub(Sub { name: "c07.facts", source: Source::Enum(fact_enum, |_| true), oracle: fact_oracle, known: no_known, hang_is_violation: false }),
     ]
 }
